@@ -246,6 +246,7 @@ type Instance struct {
 	mu       sync.Mutex
 	legacy   http.Handler // the second router in front of Prov (c20refused.go)
 	rpH      *rpHandlers  // the RP's handlers, made once per instance (c20refused.go)
+	faults   map[string]int // storage methods armed to fail with the storage's sentinel error (c20refused.go)
 }
 
 // WorldInstance describes the world's own provider as an instance
@@ -830,6 +831,7 @@ var pristineEndpoints = *op.DefaultEndpoints
 func Restore() {
 	*op.DefaultEndpoints = pristineEndpoints
 	httphelper.DefaultHTTPClient.CheckRedirect = nil
+	*StorageSentinel = *newSentinel() // the storage's own value (c20refused.go): a library that wrote into it must not spoil later cases
 }
 
 func sortStrings(xs []string) {
